@@ -13,72 +13,82 @@ use linfa::traits::Transformer;
 // "a fixed map applied row by row".  Oracle: textbook norms  l1 = sum |x_j|, max = max_j |x_j|,
 // l2 = sqrt(sum x_j^2)  evaluated on small-integer floats (exact up to the one final division).
 
-fn c16_rows_2x2() -> ([[i32; 2]; 2], [[f32; 2]; 2], Array2<f32>) {
-    let mut xi = [[0i32; 2]; 2];
-    let mut xf = [[0f32; 2]; 2];
-    for i in 0..2 { for j in 0..2 { let (v, f) = c16_si(8); xi[i][j] = v; xf[i][j] = f; } }
-    kani::assume(xi[0][0] != 0 || xi[0][1] != 0);
-    kani::assume(xi[1][0] != 0 || xi[1][1] != 0);
-    let m = Array2::from_shape_vec((2, 2), vec![xf[0][0], xf[0][1], xf[1][0], xf[1][1]]).unwrap();
-    (xi, xf, m)
+// measured: rows=2,cols=2 exhausts memory (> 25 GB after 5 min, all three norms) while rows=1,cols=2 takes 20-50 s;
+// the formula units therefore use ONE row of two columns, and rows=2 is covered with one column (c16_norm_two_rows).
+fn c16_row_1x2() -> ([i32; 2], [f32; 2], Array2<f32>) {
+    let (a, af) = c16_si(8);
+    let (b, bf) = c16_si(8);
+    kani::assume(a != 0 || b != 0);
+    ([a, b], [af, bf], Array2::from_shape_vec((1, 2), vec![af, bf]).unwrap())
 }
 
-// @unit class=bounded tier=quick mem=heavy bound="rows=2,cols=2,|x|<=8 integer-valued f32, non-zero rows" timeout=900 fns=linfa_preprocessing::norm_scaling::NormScaler::transform
+// @unit class=bounded tier=quick mem=heavy bound="rows=1,cols=2,|x|<=8 integer-valued f32, non-zero row" timeout=900 fns=linfa_preprocessing::norm_scaling::NormScaler::transform
 #[kani::proof]
 #[kani::unwind(7)]
 #[kani::stub(alloc::fmt::format, fmt_stub)]
-fn c16_norm_l1_nonzero_rows() {
-    let (xi, xf, m) = c16_rows_2x2();
+fn c16_norm_l1_nonzero_row() {
+    let (xi, xf, m) = c16_row_1x2();
     let y: Array2<f32> = NormScaler::l1().transform(m);
-    assert!(y.dim() == (2, 2));
-    for i in 0..2 {
-        let norm = (xi[i][0].abs() + xi[i][1].abs()) as f32;
-        assert!(y[(i, 0)] == xf[i][0] / norm && y[(i, 1)] == xf[i][1] / norm);        // row / norm
-        assert!(c16_close(y[(i, 0)].abs() + y[(i, 1)].abs(), 1.0, 1.0e-6));            // unit l1 norm
-        assert!(y[(i, 0)].is_finite() && y[(i, 1)].is_finite());
-        let alone: Array2<f32> = NormScaler::l1().transform(Array2::from_shape_vec((1, 2), vec![xf[i][0], xf[i][1]]).unwrap());
-        assert!(alone[(0, 0)] == y[(i, 0)] && alone[(0, 1)] == y[(i, 1)]);             // row-wise map
-    }
-    kani::cover!(xi[0][0] == -3 && xi[0][1] == 4 && xi[1][0] == 0);
-    kani::cover!(xi[0][0] < 0 && xi[0][1] < 0);
+    assert!(y.dim() == (1, 2));
+    let norm = (xi[0].abs() + xi[1].abs()) as f32;
+    assert!(y[(0, 0)] == xf[0] / norm && y[(0, 1)] == xf[1] / norm);                  // row / norm
+    assert!(c16_close(y[(0, 0)].abs() + y[(0, 1)].abs(), 1.0, 1.0e-6));               // unit l1 norm
+    kani::cover!(xi[0] == -3 && xi[1] == 4);
+    kani::cover!(xi[0] < 0 && xi[1] < 0);
+    kani::cover!(xi[0] == 0);
 }
 
-// @unit class=bounded tier=quick mem=heavy bound="rows=2,cols=2,|x|<=8 integer-valued f32, non-zero rows" timeout=900 fns=linfa_preprocessing::norm_scaling::NormScaler::transform
+// @unit class=bounded tier=quick mem=heavy bound="rows=1,cols=2,|x|<=8 integer-valued f32, non-zero row" timeout=900 fns=linfa_preprocessing::norm_scaling::NormScaler::transform
 #[kani::proof]
 #[kani::unwind(7)]
 #[kani::stub(alloc::fmt::format, fmt_stub)]
-fn c16_norm_max_nonzero_rows() {
-    let (xi, xf, m) = c16_rows_2x2();
+fn c16_norm_max_nonzero_row() {
+    let (xi, xf, m) = c16_row_1x2();
     let y: Array2<f32> = NormScaler::max().transform(m);
-    assert!(y.dim() == (2, 2));
-    for i in 0..2 {
-        let norm = xi[i][0].abs().max(xi[i][1].abs()) as f32;
-        assert!(y[(i, 0)] == xf[i][0] / norm && y[(i, 1)] == xf[i][1] / norm);        // row / norm
-        assert!(y[(i, 0)].abs().max(y[(i, 1)].abs()) == 1.0);                           // unit max norm
-        let alone: Array2<f32> = NormScaler::max().transform(Array2::from_shape_vec((1, 2), vec![xf[i][0], xf[i][1]]).unwrap());
-        assert!(alone[(0, 0)] == y[(i, 0)] && alone[(0, 1)] == y[(i, 1)]);             // row-wise map
-    }
-    kani::cover!(xi[0][0] == -3 && xi[0][1] == 4 && xi[1][0] == 0);
-    kani::cover!(xi[1][0] == -7 && xi[1][1] == 7);
+    assert!(y.dim() == (1, 2));
+    let norm = xi[0].abs().max(xi[1].abs()) as f32;
+    assert!(y[(0, 0)] == xf[0] / norm && y[(0, 1)] == xf[1] / norm);                  // row / norm
+    assert!(y[(0, 0)].abs().max(y[(0, 1)].abs()) == 1.0);                               // unit max norm
+    kani::cover!(xi[0] == -3 && xi[1] == 4);
+    kani::cover!(xi[0] == -7 && xi[1] == 7);
+    kani::cover!(xi[1] == 0);
 }
 
 // l2, formula: sqrt uninterpreted but functional, so "row / sqrt(sum of squares)" is checked against the same sqrt
-// @unit class=bounded tier=thorough mem=heavy bound="rows=2,cols=2,|x|<=8 integer-valued f32, non-zero rows" timeout=900 fns=linfa_preprocessing::norm_scaling::NormScaler::transform
+// @unit class=bounded tier=thorough mem=heavy bound="rows=1,cols=2,|x|<=8 integer-valued f32, non-zero row" timeout=900 fns=linfa_preprocessing::norm_scaling::NormScaler::transform
 #[kani::proof]
 #[kani::unwind(7)]
 #[kani::stub(alloc::fmt::format, fmt_stub)]
 #[kani::stub(f32::sqrt, c16_sqrt32)]
-fn c16_norm_l2_nonzero_rows() {
-    let (xi, xf, m) = c16_rows_2x2();
+fn c16_norm_l2_nonzero_row() {
+    let (xi, xf, m) = c16_row_1x2();
     let y: Array2<f32> = NormScaler::l2().transform(m);
-    assert!(y.dim() == (2, 2));
-    for i in 0..2 {
-        let norm = c16_sqrt32((xi[i][0] * xi[i][0] + xi[i][1] * xi[i][1]) as f32);
-        assert!(norm > 0.0);
-        assert!(y[(i, 0)] == xf[i][0] / norm && y[(i, 1)] == xf[i][1] / norm);        // row / norm
-        assert!(!y[(i, 0)].is_nan() && !y[(i, 1)].is_nan());
-    }
-    kani::cover!(xi[0][0] == -3 && xi[0][1] == 4 && xi[1][0] == 0);
+    assert!(y.dim() == (1, 2));
+    let norm = c16_sqrt32((xi[0] * xi[0] + xi[1] * xi[1]) as f32);
+    assert!(norm > 0.0);
+    assert!(y[(0, 0)] == xf[0] / norm && y[(0, 1)] == xf[1] / norm);                  // row / norm
+    assert!(!y[(0, 0)].is_nan() && !y[(0, 1)].is_nan());
+    kani::cover!(xi[0] == -3 && xi[1] == 4);
+    kani::cover!(xi[0] == 0);
+}
+
+// two rows (one column): every row is divided by ITS OWN norm - a fixed map applied row by row
+// @unit class=bounded tier=thorough mem=heavy bound="rows=2,cols=1,|x|<=8 integer-valued f32, non-zero rows, l1 and max" timeout=900 fns=linfa_preprocessing::norm_scaling::NormScaler::transform
+#[kani::proof]
+#[kani::unwind(7)]
+#[kani::stub(alloc::fmt::format, fmt_stub)]
+fn c16_norm_two_rows() {
+    let (a, af) = c16_si(8);
+    let (b, bf) = c16_si(8);
+    kani::assume(a != 0 && b != 0);
+    let use_l1: bool = kani::any();
+    let sc = if use_l1 { NormScaler::l1() } else { NormScaler::max() };
+    let y: Array2<f32> = sc.transform(Array2::from_shape_vec((2, 1), vec![af, bf]).unwrap());
+    assert!(y.dim() == (2, 1));
+    assert!(y[(0, 0)] == af / (a.abs() as f32) && y[(1, 0)] == bf / (b.abs() as f32));
+    assert!(y[(0, 0)].abs() == 1.0 && y[(1, 0)].abs() == 1.0);
+    kani::cover!(use_l1 && a == -8 && b == 3);
+    kani::cover!(!use_l1 && a == 2 && b == -5);
 }
 
 // l2, unit norm: rows whose sum of squares is a perfect square h*h (witness h; IEEE sqrt is exact there)
@@ -157,26 +167,27 @@ fn c16_norm_finite_tiny_row_l2() {
 }
 
 // dataset form: records as the array form, everything else passes through unchanged
-// @unit class=bounded tier=thorough mem=heavy bound="n=2,p=2,1 target column; names of 1-2 bytes" timeout=900 fns=linfa_preprocessing::norm_scaling::NormScaler::transform
+// @unit class=bounded tier=thorough mem=heavy bound="n=1,p=2,1 target column; names of 1-2 bytes" timeout=900 fns=linfa_preprocessing::norm_scaling::NormScaler::transform
 #[kani::proof]
 #[kani::unwind(7)]
 #[kani::stub(alloc::fmt::format, fmt_stub)]
 fn c16_norm_dataset_passthrough() {
-    let (_xi, _xf, rec) = c16_rows_2x2();
-    let (t0, t1): (u8, u8) = (kani::any(), kani::any());
-    let (w0, w1): (f32, f32) = (kani::any(), kani::any());
-    kani::assume(w0.is_finite() && w1.is_finite());
-    let ds = DatasetBase::new(rec.clone(), Array1::from(vec![t0, t1]))
-        .with_weights(Array1::from(vec![w0, w1]))
+    let (xi, xf, rec) = c16_row_1x2();
+    let t0: u8 = kani::any();
+    let w0: f32 = kani::any();
+    kani::assume(w0.is_finite());
+    let ds = DatasetBase::new(rec, Array1::from(vec![t0]))
+        .with_weights(Array1::from(vec![w0]))
         .with_feature_names(vec!["f0", "g"])
         .with_target_names(vec!["t"]);
     let out = NormScaler::max().transform(ds);
-    let want: Array2<f32> = NormScaler::max().transform(rec);
-    assert!(*out.records() == want);
-    assert!(out.targets().len() == 2 && out.targets()[0] == t0 && out.targets()[1] == t1);
+    assert!(out.records().dim() == (1, 2));
+    let norm = xi[0].abs().max(xi[1].abs()) as f32;
+    assert!(out.records()[(0, 0)] == xf[0] / norm && out.records()[(0, 1)] == xf[1] / norm);
+    assert!(out.targets().len() == 1 && out.targets()[0] == t0);
     let w = out.weights().unwrap();
-    assert!(w.len() == 2 && w[0] == w0 && w[1] == w1);
+    assert!(w.len() == 1 && w[0] == w0);
     assert!(out.feature_names().len() == 2 && out.feature_names()[0] == "f0" && out.feature_names()[1] == "g");
     assert!(out.target_names().len() == 1 && out.target_names()[0] == "t");
-    kani::cover!(t0 != t1 && w0 != w1);
+    kani::cover!(t0 == 7 && w0 == 0.5);
 }
